@@ -110,7 +110,7 @@ def run(ctx):
         Bs = [Fraction(1, 100), Fraction(1), Fraction(3)]
         alphas = [Fraction(3, 10), Fraction(1), Fraction(7)]
         Ls = [Fraction(1, 10), Fraction(1), Fraction(7, 2)]
-        KN = [(0, 0), (0, 3), (1, 1), (1, 4), (2, 2), (2, 5), (3, 7), (5, 5), (6, 40)]
+        KN = [(0, 0), (0, 3), (1, 1), (1, 4), (2, 2), (2, 5), (3, 7), (5, 5), (6, 40), (40, 2500), (300, 301)]
         gs = [Fraction(37, 100), Fraction(1, 10**12)]
         if not ctx.quick:
             As += [Fraction(7, 3)]
